@@ -78,7 +78,8 @@ func (s *Topics) UpdateEvent(topicID string, event EventState) {
 	defer s.mu.Unlock()
 	t, ok := s.topics[topicID]
 	if !ok {
-		s.topics[topicID] = s.newTopic(topicID)
+		t = s.newTopic(topicID)
+		s.topics[topicID] = t
 	}
 	t.updateEvent(event)
 }
